@@ -59,6 +59,7 @@ class H:
         self.raising_cb_ids = set()
         self.cb_gates: Dict = {}
         self.cb_live = set()
+        self.by_tid: Dict[int, dict] = {}
         kw = {} if size is None else {"pool_size": size}
         if simple:
             ecb, ccb = self.callbacks()
@@ -72,14 +73,27 @@ class H:
         me = self.serial
         self.serial += 1
         ev = self.gates.setdefault(me, asyncio.Event())
-        info = {"tag": tag, "x": x, "fail": False}
+        info = {"tag": tag, "x": x, "fail": False, "cancels_seen": 0, "stubborn": (not self.simple) and self.rnd.random() < 0.12}
+        try:
+            info["tid"] = int(asyncio.current_task().get_name().rsplit("-", 1)[1])
+            self.by_tid[info["tid"]] = info
+        except Exception:
+            info["tid"] = None
         self.live[me] = info
         self.max_live = max(self.max_live, len(self.live))
         r = self.req_by_tag.get(tag) if tag != -1 else self.simple_req()
         if r is not None:
             r.started.append(x)
         try:
-            await ev.wait()
+            while True:
+                try:
+                    await ev.wait()
+                    break
+                except asyncio.CancelledError:
+                    info["cancels_seen"] += 1
+                    if info["stubborn"] and info["cancels_seen"] == 1:
+                        continue  # a worker that shrugs off its first cancellation and carries on (C06: a later cancel() must reach it)
+                    raise
             if info["fail"]:
                 raise RuntimeError(f"boom {me}")
             return me
@@ -258,6 +272,30 @@ class H:
             return
         i = self.rnd.choice(ids)
         before = set(p._tasks_running)
+        info = self.by_tid.get(i)
+        if info is not None and info["stubborn"] and info["cancels_seen"] <= 1 and info in self.live.values():
+            # a worker that swallows its first CancelledError: it legitimately keeps running, stays cancellable, and the next
+            # cancel() naming it must deliver a new CancelledError (C06 'each named running task receives a cancellation')
+            first = info["cancels_seen"] == 0
+            p.cancel(i)
+            self.log.append(f"cancel {i} (stubborn worker, {'first' if first else 'second'} request)")
+            await drain()
+            if first:
+                if info["cancels_seen"] != 1 or i not in p._tasks_running:
+                    self.v("C06", f"first cancel({i}) of a worker that swallows it: cancellations seen {info['cancels_seen']}, still running: {i in p._tasks_running}")
+                    return
+                try:
+                    p.cancel(i)
+                except Exception as e:
+                    self.v("C06", f"cancel({i}) of a still running task (it swallowed an earlier cancellation) raised {type(e).__name__}")
+                    return
+                self.log.append(f"cancel {i} again")
+                await drain()
+            if info["cancels_seen"] != 2:
+                self.v("C06", f"cancel({i}) returned normally for a running task that swallowed an earlier cancellation, but the task received no new CancelledError")
+            elif i in p._tasks_running:
+                self.v("C06", f"task {i} still running after its second cancellation was delivered")
+            return
         p.cancel(i)
         self.log.append(f"cancel {i}")
         await drain()
@@ -365,8 +403,13 @@ class H:
         self.log.append("flush")
         re = self.rnd.random() < 0.6
         busy = {i: t for reg in (p._tasks_cancelled, p._tasks_ended) for i, t in reg.items() if not t.done()}
+        finished_before = {i: t for reg in (p._tasks_cancelled, p._tasks_ended) for i, t in reg.items() if t.done()}
         ft = asyncio.ensure_future(p.flush(return_exceptions=re))
         await drain()
+        if ft.done() and not ft.cancelled() and ft.exception() is None:
+            left = [i for i, t in finished_before.items() if p._tasks_ended.get(i) is t or p._tasks_cancelled.get(i) is t]
+            if left:
+                self.v("C13", f"flush() has returned but tasks {left}, which had finished before the call, are still remembered")
         if busy and not ft.done():
             # flush waits for tasks that are still inside a slow callback: meanwhile those tasks must stay known
             for i in busy:
@@ -449,6 +492,8 @@ class H:
                 got = set(p.get_group_ids(r.group))
                 if len(got) > r.n:
                     self.v(["C10", "C04"], f"{where}: group {r.group} reports {len(got)} ids for a request of {r.n}")
+                if r.kind != "start" and len(got) < len(r.started) and not any(o is not r and o.group == r.group and not o.cancelled for o in self.reqs):
+                    self.v("C10", f"{where}: {len(r.started)} invocations of {r.group} have started but the group reports only the ids {sorted(got)}")
             if r.cancelled and r.kind != "start" and len(r.started) > getattr(r, "started_at_cancel", 99):
                 self.v("C07", f"{where}: a task of the cancelled group {r.group} started after cancel_group")
             if r.kind in ("map", "starmap", "doublestarmap"):
